@@ -17,11 +17,16 @@ What is proved here, for ALL inputs:
 
 Listed in DESIGN.md 5/C06 and NOT done as stated: `step_congr` is proved in the form "equal snapshots give equal
 next snapshots" for DE, NM and Ctl (`*_step_congr`); there is no RNG in the model (trial vectors are inputs), so
-`rng = rng'` is the equality of the trial lists.  Powell is modelled only as two oracle-driven halves.
+`rng = rng'` is the equality of the trial lists.  Powell: the toy two-halves model (`powell_boundary_resume`,
+`powell_midstep_dump_diverges`) is kept; the real statements are about the Powell-in-S model of C01-C04
+(`Model/PowellS.lean`, Brent as a recorded oracle): `powellS_step_congr`, `powellS_resume`,
+`resume_equals_uninterrupted_powell`, `powellS_restart_index`, the lossy-snapshot witnesses
+`powellS_snapshot_must_carry_internals` / `_direc` and the periodic dump `powellS_midstep_dump_diverges`.
 -/
 import MysticVerif.Model.Checkpoint
 import MysticVerif.Proofs.Solver
 import MysticVerif.Proofs.NelderMead
+import MysticVerif.Proofs.PowellResume
 
 namespace MysticVerif.C06
 open MysticVerif.Solver MysticVerif.Checkpoint
@@ -212,6 +217,230 @@ theorem powell_midstep_dump_diverges :
     ∧ Pw.step pwEx (Pw.periodicDump pwEx pwS0) ≠ Pw.step pwEx (Pw.step pwEx pwS0)
     ∧ (Pw.step pwEx (Pw.periodicDump pwEx pwS0)).stepmon ≠ (Pw.step pwEx (Pw.step pwEx pwS0)).stepmon := by
   decide
+
+/-! ### Powell inside the solver model S (`Model/PowellS.lean`): the real `_Step`, Brent as a recorded oracle
+
+`PowellS.PwSnap` (Model/PowellResume.lean) = `population[0]`, `popEnergy[0]`, `__internals = [x1, fx, bigind, delta]`,
+`_direc`, both monitors, the deferred-record flag of `energy_history`, the number of line searches made so far.
+`PowellS.stepAt` is `_Step` with its `generations == 0` / `> 0` dispatch read from the snapshot; `PowellS.steps n`
+is `n` Steps from ANY state. -/
+
+/-- **the step reads only the snapshot (Powell)**: two solver states with the same snapshot make the same `_Step`:
+equal next snapshots, and they ask Brent for the same line searches (same start points, same directions) -/
+theorem powellS_step_congr [Sub R] [Mul R] [LT E] [DecidableLT E] (o : Obj (Pt R) E) (c : PowellS.PwCfg R E)
+    (ls : Nat → Pt R → Pt R → PowellS.LsRec R) (s s' : PowellS.Pw R E)
+    (h : PowellS.PwSnap.save s = PowellS.PwSnap.save s') :
+    PowellS.PwSnap.save (PowellS.stepAt o c ls s) = PowellS.PwSnap.save (PowellS.stepAt o c ls s')
+    ∧ ∃ t, (PowellS.stepAt o c ls s).reqs = s.reqs ++ t ∧ (PowellS.stepAt o c ls s').reqs = s'.reqs ++ t := by
+  obtain ⟨t, ht⟩ := PowellS.stepAt_setReqs o c ls s
+  have hs' := PowellS.eq_of_save_eq h
+  have h1 := ht s.reqs
+  rw [PowellS.setReqs_self] at h1
+  have h2 := ht s'.reqs
+  rw [← hs'] at h2
+  refine ⟨?_, t, ?_, ?_⟩
+  · rw [h2, PowellS.save_setReqs]
+  · rw [h1]; rfl
+  · rw [h2]; rfl
+
+/-- **resume = uninterrupted, Powell's direction-set method**: for every objective (cost, constraints, strict ranges,
+penalty), every Brent oracle and all `m`, `n`: `m` Steps from any state, writing the snapshot, restoring it and
+`n` further Steps gives the snapshot of `m + n` uninterrupted Steps (population[0], popEnergy[0], __internals,
+_direc, evaluation monitor, step monitor, deferred record, number of searches) - and the restored solver asks for
+exactly the line searches the uninterrupted one asks for after the cut. -/
+theorem powellS_resume [Sub R] [Mul R] [LT E] [DecidableLT E] (o : Obj (Pt R) E) (c : PowellS.PwCfg R E)
+    (ls : Nat → Pt R → Pt R → PowellS.LsRec R) (m n : Nat) (s0 : PowellS.Pw R E) :
+    PowellS.PwSnap.save (PowellS.steps o c ls n (PowellS.PwSnap.save (PowellS.steps o c ls m s0)).restore)
+        = PowellS.PwSnap.save (PowellS.steps o c ls (m + n) s0)
+    ∧ (PowellS.steps o c ls (m + n) s0).reqs
+        = (PowellS.steps o c ls m s0).reqs
+          ++ (PowellS.steps o c ls n (PowellS.PwSnap.save (PowellS.steps o c ls m s0)).restore).reqs := by
+  rw [PowellS.steps_add, PowellS.restore_save]
+  obtain ⟨t, ht⟩ := PowellS.steps_setReqs o c ls n (PowellS.steps o c ls m s0)
+  have h1 := ht (PowellS.steps o c ls m s0).reqs
+  rw [PowellS.setReqs_self] at h1
+  refine ⟨?_, ?_⟩
+  · rw [ht, PowellS.save_setReqs]
+  · rw [ht []]
+    conv => lhs; rw [h1]
+    rfl
+
+/-- the same for any number of Steps: equal snapshots stay equal -/
+theorem powellS_steps_congr [Sub R] [Mul R] [LT E] [DecidableLT E] (o : Obj (Pt R) E) (c : PowellS.PwCfg R E)
+    (ls : Nat → Pt R → Pt R → PowellS.LsRec R) (k : Nat) (s s' : PowellS.Pw R E)
+    (h : PowellS.PwSnap.save s = PowellS.PwSnap.save s') :
+    PowellS.PwSnap.save (PowellS.steps o c ls k s) = PowellS.PwSnap.save (PowellS.steps o c ls k s') := by
+  obtain ⟨t, ht⟩ := PowellS.steps_setReqs o c ls k s
+  have hs' := PowellS.eq_of_save_eq h
+  have h2 := ht s'.reqs
+  rw [← hs'] at h2
+  rw [h2, PowellS.save_setReqs]
+
+/-- a second generation of copies (a restored solver saved and restored again) changes nothing -/
+theorem powellS_resume_twice [Sub R] [Mul R] [LT E] [DecidableLT E] (o : Obj (Pt R) E) (c : PowellS.PwCfg R E)
+    (ls : Nat → Pt R → Pt R → PowellS.LsRec R) (m n k : Nat) (s0 : PowellS.Pw R E) :
+    PowellS.PwSnap.save (PowellS.steps o c ls k (PowellS.PwSnap.save
+        (PowellS.steps o c ls n (PowellS.PwSnap.save (PowellS.steps o c ls m s0)).restore)).restore)
+      = PowellS.PwSnap.save (PowellS.steps o c ls (m + n + k) s0) := by
+  have h1 := (powellS_resume o c ls m n s0).1
+  have h2 := (powellS_resume o c ls n k (PowellS.PwSnap.save (PowellS.steps o c ls m s0)).restore).1
+  rw [PowellS.steps_add _ _ _ n k] at h2
+  rw [h2, powellS_steps_congr o c ls k _ _ h1, ← PowellS.steps_add]
+
+/-- the runs C01-C04 talk about (`PowellS.reach`: generation 0, generation 1, then `n` iterations) are runs of the
+dispatching step function -/
+theorem powellS_reach_eq_steps [Sub R] [Mul R] [LinearOrder E] (o : Obj (Pt R) E) (c : PowellS.PwCfg R E)
+    (ls : Nat → Pt R → Pt R → PowellS.LsRec R) (x0 : Pt R) (direc : List (Pt R)) (n : Nat) :
+    PowellS.reach o c ls true x0 direc n = PowellS.steps o c ls (n + 1) (PowellS.gen0 o c true x0 direc) := by
+  have h0 : PowellS.stepAt o c ls (PowellS.gen0 o c true x0 direc) = PowellS.gen1 o c ls (PowellS.gen0 o c true x0 direc) := by
+    unfold PowellS.stepAt
+    rw [if_pos (by simp [PowellS.Pw.generations, PowellS.Pw.hist, PowellS.gen0])]
+  have h1 : 0 < (PowellS.gen1 o c ls (PowellS.gen0 o c true x0 direc)).generations := by
+    unfold PowellS.gen1
+    rw [PowellS.sweep_generations]
+    simp [PowellS.gen0]
+  have : n + 1 = 1 + n := by omega
+  rw [this, PowellS.steps_add]
+  simp only [PowellS.steps, h0]
+  rw [PowellS.steps_eq_run o c ls n _ h1]
+  rfl
+
+/-- **resume = uninterrupted for a whole Powell run**: for every cut `k` (k = 0: the restart file written after
+generation 0; k = j+1: after `reach .. j`) the restored solver continued to the end equals the uninterrupted run -/
+theorem resume_equals_uninterrupted_powell [Sub R] [Mul R] [LinearOrder E] (o : Obj (Pt R) E) (c : PowellS.PwCfg R E)
+    (ls : Nat → Pt R → Pt R → PowellS.LsRec R) (x0 : Pt R) (direc : List (Pt R)) (k n : Nat) (hk : k ≤ n + 1) :
+    PowellS.PwSnap.save (PowellS.steps o c ls (n + 1 - k)
+        (PowellS.PwSnap.save (PowellS.steps o c ls k (PowellS.gen0 o c true x0 direc))).restore)
+      = PowellS.PwSnap.save (PowellS.reach o c ls true x0 direc n) := by
+  rw [powellS_reach_eq_steps, (powellS_resume o c ls k (n + 1 - k) _).1]
+  have : k + (n + 1 - k) = n + 1 := by omega
+  rw [this]
+
+/-- **the oracle index may restart at 0**: the line-search counter is used for nothing but indexing the oracle, so
+a restored solver may be continued with a counter reset to 0 against the recording of ITS OWN line searches
+(this is how harness/c06.py restarts the model from the restored real solver) -/
+theorem powellS_restart_index [Sub R] [Mul R] [LT E] [DecidableLT E] (o : Obj (Pt R) E) (c : PowellS.PwCfg R E)
+    (ls : Nat → Pt R → Pt R → PowellS.LsRec R) (n : Nat) (s : PowellS.Pw R E) :
+    PowellS.steps o c ls n s
+      = PowellS.addNls s.nls (PowellS.steps o c (PowellS.shift s.nls ls) n { s with nls := 0 }) := by
+  rw [← PowellS.steps_addNls]
+  congr 1
+  simp [PowellS.addNls]
+
+/-- what the periodic dump lacks: completing the interrupted iteration from the dump needs the point the iteration
+started from (`x1 = x.copy()`, a LOCAL variable of `_Step` at the time of the dump) -/
+theorem powellS_dump_completion [Sub R] [Mul R] [LT E] [DecidableLT E] (o : Obj (Pt R) E) (c : PowellS.PwCfg R E)
+    (ls : Nat → Pt R → Pt R → PowellS.LsRec R) (s : PowellS.Pw R E) :
+    PowellS.sweep o c ls { PowellS.midDump o c ls s with x1 := (PowellS.extrapolate o c ls s).x1 }
+      = PowellS.genN o c ls s := rfl
+
+/-! #### kernel-checked witnesses: a smaller snapshot does not resume -/
+
+/-- `x0^2 + x1^2 + x0*x1` on integer points, no constraints -/
+def pwObj : Obj (Pt Int) Int :=
+  { raw := fun x => (x.map fun v => v * v).foldl (· + ·) 0 + (x.headD 0) * (x.getD 1 0), pen := fun _ => 0, K := id,
+    inBox := fun _ => true, useRange := false, top := 1000000, add := (· + ·) }
+
+/-- the code's arithmetic decisions (scipy_optimize.py l.680-682, l.694-703) over the integers -/
+def pwCfg : PowellS.PwCfg Int Int :=
+  { diff := fun a b => a - b, gain := fun fx2 fval delta => decide (fx2 - fval > delta),
+    tneg := fun fx fx2 fval delta =>
+      decide (2 * (fx + fx2 - 2 * fval) * ((fx - fval - delta) * (fx - fval - delta)) - delta * (fx - fx2) * (fx - fx2) < 0),
+    zeroE := 0, two := 2 }
+
+/-- a line search that evaluates `p`, `p + xi`, `p - xi` and returns the best of the three -/
+def pwLs : Nat → Pt Int → Pt Int → PowellS.LsRec Int := fun _ p xi =>
+  if pwObj.raw (vadd p xi) < pwObj.raw p then { pre := [p], y := vadd p xi, post := [vsub p xi], xi := xi }
+  else if pwObj.raw (vsub p xi) < pwObj.raw p then { pre := [p, vadd p xi], y := vsub p xi, post := [], xi := xi.map (fun v => -v) }
+  else { pre := [], y := p, post := [vadd p xi, vsub p xi], xi := xi.map (fun _ => 0) }
+
+def pwStart : PowellS.Pw Int Int := PowellS.gen0 pwObj pwCfg true [7, -5] [[1, 0], [0, 1]]
+
+/-- non-vacuity of `powellS_resume` / `resume_equals_uninterrupted_powell`: a run in which the extrapolation line
+search is taken and directions are replaced (`_direc` = [[0,1],[-2,2]] at the end), cut after two Steps -/
+example :
+    (PowellS.steps pwObj pwCfg pwLs 4 pwStart).direc = [[0, 1], [-2, 2]]
+    ∧ (PowellS.steps pwObj pwCfg pwLs 4 pwStart).x = [0, 0]
+    ∧ (PowellS.steps pwObj pwCfg pwLs 4 pwStart).nls = 10
+    ∧ PowellS.PwSnap.save (PowellS.steps pwObj pwCfg pwLs 2 (PowellS.PwSnap.save (PowellS.steps pwObj pwCfg pwLs 2 pwStart)).restore)
+        = PowellS.PwSnap.save (PowellS.steps pwObj pwCfg pwLs 4 pwStart) := by
+  decide +kernel
+
+/-- **which state must travel (Powell), 1**: a restart file without `__internals` (read back as a fresh instance has
+them: `x1` = the zero vector, `fx` = inf, `bigind = 0`, `delta = 0.0`) does NOT resume exactly: already the next
+Step ends at another point, with another step record -/
+theorem powellS_snapshot_must_carry_internals :
+    let s2 := PowellS.steps pwObj pwCfg pwLs 2 pwStart
+    (PowellS.stepAt pwObj pwCfg pwLs ((PowellS.PwSnap.save s2).restoreNoInternals [0, 0] pwObj.top 0)).x
+        ≠ (PowellS.stepAt pwObj pwCfg pwLs s2).x
+    ∧ (PowellS.stepAt pwObj pwCfg pwLs ((PowellS.PwSnap.save s2).restoreNoInternals [0, 0] pwObj.top 0)).stepLog
+        ≠ (PowellS.stepAt pwObj pwCfg pwLs s2).stepLog := by
+  decide +kernel
+
+/-- **which state must travel (Powell), 2**: a restart file without `_direc` - read back as the identity `eye(N)`
+(what generation 0 installs, l.654), or as nothing - does NOT resume exactly once a direction has been replaced -/
+theorem powellS_snapshot_must_carry_direc :
+    let s2 := PowellS.steps pwObj pwCfg pwLs 2 pwStart
+    s2.direc ≠ [[1, 0], [0, 1]]
+    ∧ (PowellS.stepAt pwObj pwCfg pwLs ((PowellS.PwSnap.save s2).restoreNoDirec [[1, 0], [0, 1]])).x
+        ≠ (PowellS.stepAt pwObj pwCfg pwLs s2).x
+    ∧ (PowellS.stepAt pwObj pwCfg pwLs ((PowellS.PwSnap.save s2).restoreNoDirec [])).x
+        ≠ (PowellS.stepAt pwObj pwCfg pwLs s2).x := by
+  decide +kernel
+
+/-- **the periodic dump of PowellDirectionalSolver, in the real step function**: the state pickled by
+`__save_state()` in the middle of `_Step` (new point / record / direction set, OLD `__internals`) is not the state
+at any Step boundary, and a solver restored from it starts a NEW iteration from the hybrid state: after one Step
+its step monitor and its number of evaluations are those of the uninterrupted solver neither one nor two Steps
+after the boundary (known finding F32) -/
+theorem powellS_midstep_dump_diverges :
+    let s2 := PowellS.steps pwObj pwCfg pwLs 2 pwStart
+    let d := PowellS.midDump pwObj pwCfg pwLs s2
+    PowellS.PwSnap.save d ≠ PowellS.PwSnap.save s2
+    ∧ PowellS.PwSnap.save d ≠ PowellS.PwSnap.save (PowellS.stepAt pwObj pwCfg pwLs s2)
+    ∧ (PowellS.stepAt pwObj pwCfg pwLs d).stepLog ≠ (PowellS.steps pwObj pwCfg pwLs 1 s2).stepLog
+    ∧ (PowellS.stepAt pwObj pwCfg pwLs d).stepLog ≠ (PowellS.steps pwObj pwCfg pwLs 2 s2).stepLog
+    ∧ (PowellS.stepAt pwObj pwCfg pwLs d).log.length ≠ (PowellS.steps pwObj pwCfg pwLs 1 s2).log.length
+    ∧ (PowellS.stepAt pwObj pwCfg pwLs d).log.length ≠ (PowellS.steps pwObj pwCfg pwLs 2 s2).log.length := by
+  decide +kernel
+
+/-! #### the direction set is updated in place: what a copy must own -/
+
+/-- **copies with their own `_direc` array are independent**: a `_Step` of one solver object leaves the state every
+other object sees unchanged, provided they do not point to the same direction-set array -/
+theorem powellS_step_frame [Sub R] [Mul R] [LT E] [DecidableLT E] (o : Obj (Pt R) E) (c : PowellS.PwCfg R E)
+    (ls : Nat → Pt R → Pt R → PowellS.LsRec R) (h : PowellS.DHeap R) (a b : PowellS.PwObj R E) (hne : a.dptr ≠ b.dptr) :
+    b.load (PowellS.stepObj o c ls h a).1 = b.load h := by
+  simp [PowellS.stepObj, PowellS.PwObj.load, List.getD_eq_getElem?_getD, List.getElem?_set_ne hne]
+
+/-- a deep copy sees what the original sees, owns a fresh array, and stepping either side never moves the other -/
+theorem powellS_deepcopy_independent [Sub R] [Mul R] [LT E] [DecidableLT E] (o : Obj (Pt R) E) (c : PowellS.PwCfg R E)
+    (ls : Nat → Pt R → Pt R → PowellS.LsRec R) (h : PowellS.DHeap R) (a : PowellS.PwObj R E) (hv : a.dptr < h.cells.length) :
+    let h' := (PowellS.deepCopyObj h a).1
+    let b := (PowellS.deepCopyObj h a).2
+    b.load h' = a.load h ∧ a.load h' = a.load h
+    ∧ b.load (PowellS.stepObj o c ls h' a).1 = b.load h'
+    ∧ a.load (PowellS.stepObj o c ls h' b).1 = a.load h' := by
+  have hne : a.dptr ≠ h.cells.length := Nat.ne_of_lt hv
+  refine ⟨?_, ?_, ?_, ?_⟩
+  · simp [PowellS.deepCopyObj, PowellS.PwObj.load, List.getD_eq_getElem?_getD]
+  · simp [PowellS.deepCopyObj, PowellS.PwObj.load, List.getD_eq_getElem?_getD, List.getElem?_append_left hv]
+  · exact powellS_step_frame o c ls _ _ _ hne
+  · exact powellS_step_frame o c ls _ _ _ (Ne.symm hne)
+
+/-- **a copy that shares the `_direc` array is NOT independent** (what `__copy__` gives, and what a `__deepcopy__`
+that forgot the array would give): one Step of the original replaces a direction in place and the copy, which was
+never advanced, now holds another direction set - and continues differently from the solver it was copied from -/
+theorem powellS_shared_direc_not_independent :
+    let s1 := PowellS.steps pwObj pwCfg pwLs 1 pwStart
+    let h : PowellS.DHeap Int := { cells := [s1.direc] }
+    let a : PowellS.PwObj Int Int := { s := s1, dptr := 0 }
+    let b := (PowellS.shallowCopyObj h a).2
+    let h1 := (PowellS.stepObj pwObj pwCfg pwLs h a).1
+    (b.load h).direc = [[1, 0], [0, 1]] ∧ (b.load h1).direc = [[0, 1], [-1, 1]]
+    ∧ (PowellS.stepAt pwObj pwCfg pwLs (b.load h)).x = [4, -2] ∧ (PowellS.stepAt pwObj pwCfg pwLs (b.load h1)).x = [3, -1]
+    ∧ (PowellS.stepAt pwObj pwCfg pwLs (b.load h1)).fval ≠ (PowellS.stepAt pwObj pwCfg pwLs (b.load h)).fval := by
+  decide +kernel
 
 /-! ## (b) the shared cells -/
 
